@@ -7,6 +7,7 @@ import (
 	"go/token"
 	"go/types"
 	"strings"
+	"time"
 
 	"golang.org/x/tools/go/ssa"
 )
@@ -124,6 +125,40 @@ func (e *Exec) callFn(fn *ssa.Function, args []Value, bind []Value) (Value, *GoP
 	return e.run(fr, fn.Blocks[0])
 }
 
+// boundCandidate: a path that does not finish within the unwinding bound may be a path that never
+// finishes: its inputs are replayed natively under a watchdog (a run that does not end is reported
+// as a termination violation; one that ends leaves the bound failure as it is: inconclusive).
+func (e *Exec) boundCandidate(msg string) {
+	if e.boundReported || e.env != nil {
+		return
+	}
+	e.boundReported = true
+	m := e.model
+	if m == nil {
+		if res, mm := e.sat(e.tb.T, true); res == Sat {
+			m = mm
+		}
+	}
+	if m != nil {
+		e.w.reportViolation(e, "terminates", "nontermination", msg, m)
+	}
+}
+
+// pathBudget bounds a single path by its number of decisions and its wall-clock time as well as by
+// its SSA steps (a loop over symbolic positions makes every step slower than the one before, so the
+// step bound alone may never be reached).
+func (e *Exec) pathBudget() {
+	if e.pathStart.IsZero() {
+		e.pathStart = time.Now()
+		return
+	}
+	if len(e.trace) > 40000 || time.Since(e.pathStart) > 60*time.Second {
+		msg := fmt.Sprintf("path bound exceeded (unwinding assertion): %d decisions, %.0f s, %d SSA steps", len(e.trace), time.Since(e.pathStart).Seconds(), e.steps)
+		e.boundCandidate(msg)
+		panic(pathEnd{kind: "bound", msg: msg})
+	}
+}
+
 // run executes from block b to function exit.
 func (e *Exec) run(fr *Frame, b *ssa.BasicBlock) (Value, *GoPanic) {
 	var prev *ssa.BasicBlock
@@ -132,6 +167,7 @@ func (e *Exec) run(fr *Frame, b *ssa.BasicBlock) (Value, *GoPanic) {
 		for _, in := range b.Instrs {
 			e.steps++
 			if e.steps > e.maxSteps {
+				e.boundCandidate(fmt.Sprintf("no end within %d SSA steps in %s", e.maxSteps, fr.fn))
 				panic(pathEnd{kind: "bound", msg: fmt.Sprintf("step bound %d exceeded (unwinding assertion) in %s", e.maxSteps, fr.fn)})
 			}
 			var pan *GoPanic
